@@ -154,6 +154,8 @@ def config_case(draw, bases=None, generated=True, min_end=None, sampling_focus=F
             edits = [(sec, opt, repr(tie) if opt in ("chain_time", "chain_length") else val) for sec, opt, val in edits]
         case = {"base": G7, "g7_N": N, "edits": [list(e) for e in edits], "seed": draw(st.integers(0, 2 ** 31)),
                 "events": draw(st.integers(max_events[0], max_events[1]))}
+        if sampling_focus and draw(st.booleans()):
+            case["final_output"] = True
         if draw(st.booleans()):
             case["cluster"] = draw(st.sampled_from([0.3, 0.5]))
         return case
@@ -281,6 +283,9 @@ def config_case(draw, bases=None, generated=True, min_end=None, sampling_focus=F
         hi = 6000          # longer histories in the thorough tier
     events = draw(st.integers(max_events[0], hi))
     case = {"base": base, "edits": [list(e) for e in edits], "seed": seed, "events": events}
+    if sampling_focus and draw(st.integers(0, 2)) <= (1 if "dipole_motion" in base else 0):
+        # (more often where the run can end in molecule mode: the whole object then has to be advanced)
+        case["final_output"] = True
     if sampling_focus and "dump" not in base and draw(st.integers(0, 3)) == 0:
         case["second_sampling"] = {"interval": round(draw(st.floats(0.05, 1.5)), 4), "zero": draw(st.booleans())}
     if "cell" in base and gen and N >= 3 and draw(st.booleans()):
@@ -490,8 +495,39 @@ def add_second_sampling(text, interval, zero):
     return text
 
 
+def add_final_output(text):
+    """Connect the end-of-run handler to an output handler (its documented optional `output_handler` argument): a copy
+    of the shipped sampling output handler under a new alias receives the global state at the end of the run."""
+    handler_sections = [sec for sec, _ in sections_with(text, "sampling_interval")
+                        if not sec.startswith("VerifSecond")]
+    end_sections = [sec for sec, _ in sections_with(text, "end_of_run_time")]
+    if len(handler_sections) != 1 or len(end_sections) != 1:
+        return None
+    out_name = get_option(text, handler_sections[0], "output_handler")
+    outputs = get_option(text, "InputOutputHandler", "output_handlers")
+    entry = [e.strip() for e in outputs.split(",") if e.strip().split("(")[0].strip() == out_name]
+    if not entry:
+        return None
+    out_class = entry[0].split("(")[1].rstrip(") ").strip() if "(" in entry[0] else out_name
+    new_out = "verif_final_output_handler"
+    text = set_option(text, "InputOutputHandler", "output_handlers", outputs.rstrip(", ") + ", %s (%s)" % (
+        new_out, out_class))
+    text = set_option(text, end_sections[0], "output_handler", new_out)
+    text += "\n[%s]\n" % _camel(new_out)
+    for k, v in section_options(text, _camel(out_name)):
+        if k == "filename":
+            stem, dot, ext = v.rpartition(".")
+            v = (stem + "_final." + ext) if dot else v + "_final"
+        text += "%s = %s\n" % (k, v)
+    return text
+
+
 def materialise(case):
     text = _materialise(case)
+    if case.get("final_output"):
+        extended = add_final_output(text)
+        if extended is not None:
+            text = extended
     if case.get("second_sampling"):
         extended = add_second_sampling(text, case["second_sampling"]["interval"], case["second_sampling"]["zero"])
         if extended is not None:
